@@ -47,6 +47,19 @@ def run(prop, tier):
                 c = json.loads(l)
                 c["vocab"] = v
                 dest.write(json.dumps(c) + "\n")
+        # syntactically valid terms: every tree of spec/ZyFormat.tla (35+ formers, binder sugar, 12 pattern spellings at the root)
+        tout = os.path.join(W, "trees.out")
+        res = lib.run_tlc("ZyFormat.tla", "MC_ZyFormat_d2.cfg" if tier == "quick" else "MC_ZyFormat_d3.cfg", tout, workers=12, coverage=False, timeout=6000, xmx="16g")
+        states += res["distinct"]
+        transitions += res["generated"]
+        tcases = os.path.join(W, "trees.cases.ndjson")
+        ntrees = lib.extract_replay(tout, tcases)
+        os.remove(tout)
+        require(ntrees > 40000, "too few trees: %d" % ntrees)
+        log("[tlc] ZyFormat: %d trees" % ntrees)
+        for l in open(tcases):
+            c = json.loads(l)
+            dest.write(json.dumps({"text": " ".join(t for t, p in zip(c["toks"], c["pars"]) if p != "red")}) + "\n")
     trace = os.path.join(W, "trace.ndjson")
     summ = os.path.join(W, "summary.json")
     nbytes, mutants = (3000, 3) if tier == "quick" else (200000, 50)
